@@ -5,7 +5,8 @@ set -e
 cd "$(dirname "$0")"
 export CARGO_NET_OFFLINE=true CARGO_TARGET_DIR=/verif/build/cargo
 mkdir -p build evidence replays
-( cd coq && coq_makefile -f _CoqProject -o Makefile >/dev/null && timeout 7200 make -j16 2>&1 | grep -v '^WARNING conda' | tail -5 )
+python3 -c "import sys; sys.path.insert(0, \"lib\"); import framework; framework.ensure_makefile()"
+( cd coq && timeout 7200 make -j16 2>&1 | grep -v '^WARNING conda' | tail -5 )
 timeout 3000 ./driver/build.sh
 ( cd harness && RUSTFLAGS="--cfg hasenbanck_lzma_rust2_verif" timeout 3000 cargo build --offline --release 2>&1 | tail -2 )
 # independent re-check of the property theorems and the axioms they rely on (informational log)
